@@ -9,12 +9,12 @@ the solver (checksum proofs).  `canon` offers `v` itself in place of F(v) and PR
   * instantiation   the reader's term is literally F with v.e in place of x (z3.substitute + structural
                     equality), and 0 <= v <= 255 holds by construction of the byte (interval of v)
 
-If either step fails the replacement is still offered but the equality is handed back as a condition
-(the caller turns it into an obligation of its own).  No trust in the tags is needed for soundness:
-a wrong tag makes the generic lemma or the instantiation fail.
+The same is done for the condition "both characters are hex digits".  If the lemma cannot be proved the
+reader's own term is kept.  No trust in the tags is needed for soundness: the lemma is about the very
+term the reader computed (z3.substitute of v.e by x, and back), a wrong tag just makes it unprovable.
 """
 import z3
-from .core import SymInt, sym_and
+from .core import SymInt, SymBool, sym_and
 
 _cache = {}     # id(generic term) -> (generic term, proved?)
 stats = dict(proved=0, failed=0, instances=0)
@@ -36,20 +36,40 @@ def _generic_ok(term, v):
     return ok
 
 
-def canon(digits, values):
-    """(digit code points, decoded byte values) -> (byte values', lemma); see module docstring."""
-    out, lem = [], []
+def _generic_true(cond, v):
+    """cond is a condition built from v.e only via the digits of v: is it true for every byte value?"""
+    x = z3.BitVec("hexlemma!x", v.e.size())
+    g = z3.substitute(cond, (v.e, x))
+    hit = _cache.get(g.get_id())
+    if hit is not None and hit[0].eq(g):
+        return hit[1]
+    s = z3.SolverFor("QF_BV")
+    s.set("timeout", 20000)
+    s.add(x >= 0, x <= 255, z3.Not(g))
+    ok = s.check() == z3.unsat
+    stats["proved" if ok else "failed"] += 1
+    _cache[g.get_id()] = (g, ok)
+    return ok
+
+
+def canon(digits, values, valids):
+    """(digit code points, decoded byte values, per-byte 'both characters are hex digits' conditions)
+    -> (byte values', valids').  An entry is replaced (value by the source byte, validity by True) only
+    when the generic lemma was proved and instantiates; otherwise it is handed back unchanged."""
+    out, oks = [], []
     for k, val in enumerate(values):
+        ok = valids[k]
         th = getattr(digits[2 * k], "tag", None)
         tl = getattr(digits[2 * k + 1], "tag", None)
         if type(val) is SymInt and type(th) is tuple and type(tl) is tuple and len(th) == 4 and len(tl) == 4 \
                 and th[2] is tl[2] and th[3] == 1 and tl[3] == 0:
             v = th[2]
-            out.append(v)
-            stats["instances"] += 1
-            if type(v) is SymInt and v.lo >= 0 and v.hi <= 255 and _generic_ok(val, v):
-                continue
-            lem.append(val == v)
-        else:
-            out.append(val)
-    return out, (sym_and(*lem) if lem else True)
+            if type(v) is SymInt and v.lo >= 0 and v.hi <= 255:
+                stats["instances"] += 1
+                if _generic_ok(val, v):
+                    val = v
+                if isinstance(ok, SymBool) and _generic_true(ok.e, v):
+                    ok = True
+        out.append(val)
+        oks.append(ok)
+    return out, oks
